@@ -19,7 +19,7 @@ func init() {
 			"substitution in PostProcessBeforeInstantiation is outside the family",
 			"success is not demanded where all versions agree (the container may be conservative); only success with mixed versions is a violation",
 		},
-		Parts: []Part{{Name: "versions", Run: c03Run, QuickS: 80, ThoroughS: 1500}},
+		Parts: []Part{{Name: "versions", Run: c03Run, QuickS: 240, ThoroughS: 1800}},
 	})
 }
 
@@ -160,6 +160,22 @@ func c03Gen(c *core.Ctx) func(yield func(c03Case) bool) {
 		if !ok {
 			return
 		}
+		// substitutes of the component's own type (a post-processor swaps in another instance)
+		allGraphs(3, []int{scen.ENone, scen.EName, scen.EPtr}, false, func(e [][]int) bool {
+			for node := 0; node < 3; node++ {
+				for plan := 1; plan < scen.NumWrapPlans; plan++ {
+					w := []int{0, 0, 0}
+					w[node] = plan
+					if ok = yield(c03Case{scen.GraphProg{N: 3, Edges: e, Wrap: w, WrapSame: true, Family: "n3-sametype"}, 0}); !ok {
+						return false
+					}
+				}
+			}
+			return true
+		})
+		if !ok {
+			return
+		}
 		// func-shaped substitutes (closures implementing the interface): two closures of one literal
 		// are two versions although they share a code pointer
 		allGraphs(3, three, false, func(e [][]int) bool {
@@ -261,7 +277,7 @@ func c03Run(c *core.Ctx) {
 			cc := cs
 			cc.Choices = ch.Choices()
 			key := func(kind string) string {
-				return "C03/" + kind + "/" + core.Hash(p.N, p.Edges, p.Base, p.Wrap, p.Lazy, p.InitLookup, p.WrapFunc, cc.Choices)
+				return "C03/" + kind + "/" + core.Hash(p.N, p.Edges, p.Base, p.Wrap, p.Lazy, p.InitLookup, p.WrapFunc, p.WrapSame, cc.Choices)
 			}
 			if !o.OK() {
 				return // failing is always allowed by C03 (panics / hangs are C09 / C02 matters)
@@ -383,7 +399,12 @@ func version(v any) string {
 			s += fmt.Sprintf("WF[%s#%d]:", x.Tag(), x.Serial())
 			v = x(1)
 			continue
-		case *scen.N, *scen.NZ:
+		case *scen.N:
+			if x.Copy != "" {
+				return s + fmt.Sprintf("copy[%s]@%p", x.Copy, x)
+			}
+			return s + "raw"
+		case *scen.NZ:
 			return s + "raw"
 		}
 		return s + fmt.Sprintf("%T", v)
